@@ -34,6 +34,8 @@ CHECKS = {
          "annotation text equality is not compared (DESIGN section 8)", "TLC-enumerated programs replayed + trace validation (T_FastCheck)"),
  "C12": (MC, "histories none / none / cold / warm / edit / none / stale / warm of seeded random workspace packages (with and without declarations that need inference) run through the real fast check with a recording cache; TLC checks per run all-or-nothing per package, recorded dependencies = dependencies the emitted text declares, and against the cache-less run of the same sources: same modules emitted, same text, dependencies and source maps; repeated cache-less runs identical", "4.7, 7 C12",
          "F8 is a known finding; histories are sampled", "TLA+ trace validation of fast-check histories (T_FastCheck)"),
+ "C08": ("exploration", "Analyzer.tla states, over a vocabulary of 33 dependency-bearing items, 9 header and 2 footer forms and 6 media types, which ModuleInfo the analyser must return (kinds, order, unescaped text, attribute class, which pragma attaches to which import, what is ignored per media type); TLC enumerates every document of <= 2 (thorough 3) items and each is rendered with seeded trivia and analysed by the real ParserModuleAnalyzer; every reported range is mapped back onto the text and must cover exactly the token; Dependency::includes is probed at start/middle/end of every token; the range and includes clauses are also run on every module source of the spec corpus", "4.8, 7 C08",
+         "decided for the modelled vocabulary; range arithmetic is checked by the renderer's knowledge of what it wrote, not by TLC", "TLC-enumerated documents replayed into the analyser (spec -> impl)"),
  "C05": (MC, "every loader call, lockfile read and write of seeded registry + remote worlds (lockfile absent / matching / wrong, tampered bytes and manifests, stale caches, redirects, cache-only probes) is a trace event; TLC checks per call that the known checksum is presented, and at the end that rejected content is not admitted, the retry discipline, rejected checksummed redirects and exact, non-overwriting lockfile writes", "4.6, 7 C05",
          "SHA-256 values are computed by the harness and compared as tokens; F9 is a known finding", "TLA+ trace validation of loader/locker events (T_Jsr)"),
  "C06": (MC, "function level: TLC enumerates the whole bounded domain of resolve_version (registries x requirements x already-selected x cached x cutoff), proves tiers-as-coded == property statement at design level and every combination is replayed into the real function; graph level: every on_resolve event of registry-world builds is validated in order against the statement with the selections made so far", "4.6, 7 C06",
